@@ -41,7 +41,20 @@ NearestToZero(b) == IF XLeq(Zero, b.lo) THEN b.lo ELSE IF XLeq(b.hi, Zero) THEN 
 HasInteger(b) == b.lo[2] = 0 \/ b.hi[2] = 0 \/ RCeil(b.lo) <= RFloor(b.hi)
 IsIntegral(x) == x[2] = 0 \/ x[2] = 1
 \* out is an integer rounding of a that keeps every integer of a
+\* ... with the magnitude tokens <<+-1,-30>> = +-1e30 (integers far beyond i64) ordered between the finite domain and the
+\* infinities:  -inf < -1e30 < every finite trace number < 1e30 < +inf
+IsBig(x) == x[2] = -30
+BRank(x) == IF x[2] = 0 THEN 2 * x[1] ELSE IF IsBig(x) THEN x[1] ELSE 0
+BLeq(x, y) == IF BRank(x) = 0 /\ BRank(y) = 0 THEN XLeq(x, y) ELSE BRank(x) <= BRank(y)
+IntRoundBig(a, out) ==
+  LET ok(x) == x[2] \in {0, 1} \/ IsBig(x)
+      ceilB(x) == IF IsBig(x) THEN x ELSE R(RCeil(x))
+      floorB(x) == IF IsBig(x) THEN x ELSE R(RFloor(x)) IN
+  /\ ok(out.lo) /\ ok(out.hi) /\ out.lo # NaN /\ out.hi # NaN /\ BLeq(out.lo, out.hi) /\ out.lo # PInf /\ out.hi # NInf
+  /\ (IF a.lo[2] = 0 THEN out.lo = NInf ELSE BLeq(out.lo, ceilB(a.lo)))
+  /\ (IF a.hi[2] = 0 THEN out.hi = PInf ELSE BLeq(floorB(a.hi), out.hi))
 IntRoundOK(a, out) ==
+  IF IsBig(a.lo) \/ IsBig(a.hi) \/ IsBig(out.lo) \/ IsBig(out.hi) THEN IntRoundBig(a, out) ELSE
   /\ Valid(out) /\ IsIntegral(out.lo) /\ IsIntegral(out.hi)
   /\ (IF a.lo[2] = 0 THEN out.lo = NInf ELSE XLeq(out.lo, R(RCeil(a.lo))))
   /\ (IF a.hi[2] = 0 THEN out.hi = PInf ELSE XLeq(R(RFloor(a.hi)), out.hi))
